@@ -561,7 +561,7 @@ func ruleGroupNoRunAfterStop(c *Ctx, r *R) {
 				if st.Dir != types.RecvOnly {
 					continue
 				}
-				if call, ok := resolveVal(st.Chan).(*ssa.Call); ok && call.Call.IsInvoke() && call.Call.Method.Name() == "Done" && isGroupCtx(call.Call.Value) {
+				if isGroupDone(st.Chan, isGroupCtx, 0) {
 					hasCtx = true
 					if si == idx {
 						isCtxArm = true
@@ -1150,4 +1150,89 @@ func literalParamArgs(prm *ssa.Parameter) []ssa.Value {
 		})
 	}
 	return out
+}
+
+// isGroupDone: ch is the Done channel of the group's context: g.ctx.Done() itself; a field of the group that is only ever set,
+// where the group is built, to the Done channel of the context stored in its ctx field (done: bgCtx.Done() next to ctx: bgCtx);
+// or the channel parameter of a helper of the package to which every call site hands such a channel (recvOrDone(g.done, c)).
+func isGroupDone(ch ssa.Value, isGroupCtx func(ssa.Value) bool, d int) bool {
+	if d > 3 {
+		return false
+	}
+	v := resolveVal(ch)
+	for {
+		if ct, ok := v.(*ssa.ChangeType); ok {
+			v = ct.X
+			continue
+		}
+		break
+	}
+	switch x := v.(type) {
+	case *ssa.Call:
+		return x.Call.IsInvoke() && x.Call.Method.Name() == "Done" && isGroupCtx(x.Call.Value)
+	case *ssa.Parameter:
+		args := helperChanArgs(x)
+		if len(args) == 0 {
+			return false
+		}
+		for _, a := range args {
+			if !isGroupDone(a, isGroupCtx, d+1) {
+				return false
+			}
+		}
+		return true
+	case *ssa.UnOp:
+		if x.Op != token.MUL {
+			return false
+		}
+		fa, ok := x.X.(*ssa.FieldAddr)
+		if !ok || curCtx == nil {
+			return false
+		}
+		nt, ok := derefType(fa.X.Type()).(*types.Named)
+		if !ok || nt.Obj().Name() != "Group" {
+			return false
+		}
+		n, good := 0, true
+		for _, f := range curCtx.Funcs {
+			instrs(f, func(_ *ssa.BasicBlock, _ int, in ssa.Instruction) {
+				st, ok := in.(*ssa.Store)
+				if !ok {
+					return
+				}
+				fa2, ok := st.Addr.(*ssa.FieldAddr)
+				if !ok || fa2.Field != fa.Field {
+					return
+				}
+				if nt2, ok := derefType(fa2.X.Type()).(*types.Named); !ok || nt2.Origin() != nt.Origin() {
+					return
+				}
+				n++
+				// bgCtx.Done(), with the same bgCtx stored into the ctx field of the same object
+				dc, ok := resolveVal(st.Val).(*ssa.Call)
+				if ct, isCT := st.Val.(*ssa.ChangeType); isCT && !ok {
+					dc, ok = resolveVal(ct.X).(*ssa.Call)
+				}
+				if !ok || !dc.Call.IsInvoke() || dc.Call.Method.Name() != "Done" {
+					good = false
+					return
+				}
+				same := false
+				for _, ref := range refsOf(fa2.X) {
+					if fa3, isFA := ref.(*ssa.FieldAddr); isFA && fieldName(fa3.X.Type(), fa3.Field) == "ctx" {
+						for _, r2 := range refsOf(fa3) {
+							if st3, isSt := r2.(*ssa.Store); isSt && resolveVal(st3.Val) == resolveVal(dc.Call.Value) {
+								same = true
+							}
+						}
+					}
+				}
+				if !same {
+					good = false
+				}
+			})
+		}
+		return n > 0 && good
+	}
+	return false
 }
